@@ -17,7 +17,7 @@ class Flip(ast.NodeTransformer):
             return ast.copy_location(ast.If(test=nt, body=node.orelse, orelse=node.body), node)
         return node
 
-prog = Program("/repo", inline=False)
+prog = Program("/repo", inline=False, normal=False)
 ov = {}
 for rel, src in prog.files.items():
     tree = Flip().visit(ast.parse(src))
